@@ -268,6 +268,8 @@ func init() {
 			return nil
 		},
 		"verif/symx.SoftOpaque": func(fr *frame, a []value) value { fr.i.softOpaque = a[0].(bool); return nil },
+		// Cost(): SSA instructions executed so far on this path (a deterministic cost meter)
+		"verif/symx.Cost": func(fr *frame, a []value) value { return int(fr.i.fuelStart - fr.i.fuel) },
 		"verif/symx.SoftFuel": func(fr *frame, a []value) value {
 			fr.i.softFuelAt = fr.i.fuel - asInt64(a[0])
 			return nil
